@@ -5,10 +5,13 @@ cd "$(dirname "$0")"
 export GOFLAGS=-mod=mod GOPROXY=off GOSUMDB=off GOTOOLCHAIN=local CGO_ENABLED=0
 mkdir -p bin work evidence replays
 (cd go/extract && go build -o ../../bin/pwextract .)
+(cd go/translate && go build -o ../../bin/pwtranslate .)
 mkdir -p lean/Pw/Generated
+./bin/pwtranslate "${VERIF_REPO:-/repo}" > lean/Pw/Generated/Trans.lean.new
+if ! cmp -s lean/Pw/Generated/Trans.lean.new lean/Pw/Generated/Trans.lean; then mv lean/Pw/Generated/Trans.lean.new lean/Pw/Generated/Trans.lean; else rm lean/Pw/Generated/Trans.lean.new; fi
 ./bin/pwextract "${VERIF_REPO:-/repo}" > lean/Pw/Generated/Facts.lean.new
 if ! cmp -s lean/Pw/Generated/Facts.lean.new lean/Pw/Generated/Facts.lean; then mv lean/Pw/Generated/Facts.lean.new lean/Pw/Generated/Facts.lean; else rm lean/Pw/Generated/Facts.lean.new; fi
-(cd lean && lake build Pw pwdriver Pw.Conformance Pw.Props.All)
+(cd lean && lake build Pw pwdriver Pw.Conformance Pw.Props.All Pw.Props.Tie Pw.Props.TieFraming Pw.Props.TieWriter)
 cp "${VERIF_REPO:-/repo}/go.sum" go/harness/go.sum
 (cd go/harness && go build -tags verif -o ../../bin/pwharness .)
 echo "setup done"
